@@ -114,8 +114,8 @@ Print Assumptions bitmap_exact.
    data / empty non-terminal layout; stored with absolute names, or relativized with the apex as
    the empty name) whose owner names `sorted` are in canonical order:
    - the NSEC records handed to the signer are, in order, the reference chain over the names that
-     are not beneath a zone cut: every such name exactly once (rfc_chain_owners), `next` = the
-     following such name, the last one wraps to the origin (rfc_chain_next), each bitmap a
+     are not beneath a zone cut: every such name exactly once, `next` = the following such name,
+     the last one wraps to the origin (see nsec_chain_visits_each_once below), each bitmap a
      well-formed encoding of exactly the types at the name (+ RRSIG, NSEC; only NS/DS at a cut);
    - the other RRsets handed to the signer are exactly the authoritative ones (no RRSIGs, at a
      delegation point only DS, nothing beneath a delegation). *)
@@ -137,10 +137,26 @@ Theorem nsec_chain_spec_eq : forall (origin apex : name) (relativize : bool) (no
 Proof. exact sign_zone_nsec_eq_rfc. Qed.
 Print Assumptions nsec_chain_spec_eq.
 
-Theorem nsec_chain_visits_each_once : forall origin apex nodes l,
-  map (fun e => fst (fst e)) (rfc_chain origin apex nodes l) = l /\
-  map (fun e => snd (fst e)) (rfc_chain origin apex nodes l) = match l with [] => [] | _ :: r => r ++ [origin] end.
-Proof. intros. split; [apply rfc_chain_owners|apply rfc_chain_next]. Qed.
+(* the same, read off the implementation's output: the NSEC owners are exactly the names that are
+   not beneath a delegation, each exactly once, in canonical order; next = following owner, the last
+   one wraps to the origin *)
+Theorem nsec_chain_visits_each_once : forall origin apex relativize nodes sorted ab,
+  ci_distinct sorted ->
+  Forall (fun n => is_absolute n = ab) sorted ->
+  StronglySorted name_le sorted ->
+  is_absolute origin = true ->
+  (ab = true /\ apex = origin /\ relativize = false) \/ (ab = false /\ apex = [] /\ relativize = true) ->
+  (forall n, In n sorted ->
+     types_at nodes n <> [] /\ Forall (fun t => 1 <= t <= 65535) (types_at nodes n)) ->
+  has_type (types_at nodes apex) tSOA = true ->
+  Permutation (map fst nodes) sorted ->
+  exists calls, sign_zone_nsec origin relativize nodes = Ok calls /\
+    let owners := map (fun e => fst (fst e)) (nsec_calls calls) in
+    let nexts := map (fun e => snd (fst e)) (nsec_calls calls) in
+    owners = rfc_secure apex nodes sorted /\ NoDup owners /\ StronglySorted name_le owners /\
+    (forall n, In n owners <-> In n sorted /\ rfc_occluded apex nodes sorted n = false) /\
+    nexts = match owners with [] => [] | _ :: r => r ++ [origin] end.
+Proof. exact nsec_owners_exact. Qed.
 Print Assumptions nsec_chain_visits_each_once.
 
 (* Zone._compute_digest (ZONEMD, SIMPLE scheme, SHA-384/512): the octets fed to the hash are the
